@@ -173,7 +173,10 @@ class SmtpRelayClient(RelayPoolClient):
     def _mailfrom(self, sender):
         assert self.client is not None
         with Timeout(self.command_timeout):
-            mailfrom = self.client.mailfrom(sender, auth=False)
+            try:
+                mailfrom = self.client.mailfrom(sender, auth=False)
+            except UnicodeError:
+                mailfrom = self._unencodable_address()
         if mailfrom and mailfrom.is_error():
             raise SmtpRelayError.factory(mailfrom)
         return mailfrom
@@ -182,7 +185,16 @@ class SmtpRelayClient(RelayPoolClient):
     def _rcptto(self, rcpt):
         assert self.client is not None
         with Timeout(self.command_timeout):
-            return self.client.rcptto(rcpt)
+            try:
+                return self.client.rcptto(rcpt)
+            except UnicodeError:
+                return self._unencodable_address()
+
+    def _unencodable_address(self):
+        # The address cannot be sent to a server without SMTPUTF8: that is a
+        # permanent failure of this address, not a crash of the attempt.
+        return Reply('553', '5.6.7 Address requires SMTPUTF8',
+                     command=self.current_command, address=self.address)
 
     @current_command(b'DATA')
     def _data(self):
